@@ -613,4 +613,232 @@ Proof.
   - unfold nb. simpl. auto.
   - right. reflexivity.
 Qed.
+
+(* ---------- traversal (qb_map_foreach = iter_create; iter_next ...; iter_free) ---------- *)
+Definition all_ok (h : heap) (l : list nat) : Prop :=
+  forall id, In id l -> exists n, deref h id = Ok n /\ hn_removed n = false.
+
+Lemma scan_good : forall h l, all_ok h l -> scan v_fixed h l = Ok (hd_error l).
+Proof.
+  intros. destruct l; simpl; auto. destruct (H n) as [m [M1 M2]]. left; auto. rewrite M1. simpl.
+  unfold eligible. simpl. rewrite M2. auto.
+Qed.
+
+Fixpoint first_ne (b : nat) (rest : list (list nat)) : option (nat * nat) :=
+  match rest with
+  | [] => None
+  | l :: r => match l with x :: _ => Some (x, S b) | [] => first_ne (S b) r end
+  end.
+
+Lemma scan_buckets_good : forall h rest b cands, all_ok h (cands ++ concat rest) ->
+  scan_buckets v_fixed h b cands rest = Ok (match cands with x :: _ => Some (x, b) | [] => first_ne b rest end).
+Proof.
+  induction rest; simpl; intros.
+  - rewrite scan_good. destruct cands; auto. intros id Hid. apply H. apply in_or_app; auto.
+  - rewrite scan_good by (intros id Hid; apply H; apply in_or_app; auto).
+    destruct cands; simpl; auto.
+Qed.
+
+Lemma first_ne_spec : forall rest b,
+  match first_ne b rest with
+  | None => concat rest = []
+  | Some (x, b') => exists j t, b' = S (b + j) /\ nth j rest [] = x :: t /\ concat rest = x :: t ++ concat (skipn (S j) rest)
+  end.
+Proof.
+  induction rest; simpl; intros; auto. destruct a.
+  - specialize (IHrest (S b)). destruct (first_ne (S b) rest) as [[x b']|]; auto.
+    destruct IHrest as [j [t [J1 [J2 J3]]]]. exists (S j), t. repeat split; auto; lia.
+  - exists 0, a. repeat split; auto; lia.
+Qed.
+
+Lemma nth_skipn' : forall {A} (l : list A) n j d, nth j (skipn n l) d = nth (n + j) l d.
+Proof. induction l; simpl; intros. destruct n, j; auto. destruct n; simpl; auto. Qed.
+Lemma skipn_skipn' : forall {A} (l : list A) n m, skipn m (skipn n l) = skipn (n + m) l.
+Proof. induction l; simpl; intros. destruct n, m; auto. destruct n; simpl; auto. Qed.
+
+Lemma after_id_next : forall l cur nx t, NoDup l -> after_id cur l = nx :: t -> after_id nx l = t.
+Proof.
+  induction l; simpl; intros. discriminate. inversion H; subst.
+  destruct (Nat.eqb a cur) eqn:E.
+  - subst l. inversion H4; subst. destruct (Nat.eqb a nx) eqn:E2.
+    + apply Nat.eqb_eq in E2. subst. exfalso. apply H3. left; auto.
+    + simpl. rewrite Nat.eqb_refl. auto.
+  - destruct (Nat.eqb a nx) eqn:E2.
+    + apply Nat.eqb_eq in E2. subst. exfalso. apply H3.
+      clear - H0. revert H0. induction l; simpl; intros. discriminate. destruct (Nat.eqb a cur). subst. right; left; auto. right; auto.
+    + eapply IHl; eauto.
+Qed.
+
+Lemma after_id_incl : forall l cur x, In x (after_id cur l) -> In x l.
+Proof. induction l; simpl; intros. contradiction. destruct (Nat.eqb a cur); auto. right. eapply IHl; eauto. Qed.
+
+Definition bumpn (n : hnode) : hnode :=
+  {| hn_key := hn_key n; hn_val := hn_val n; hn_ref := S (hn_ref n); hn_removed := hn_removed n; hn_subs := hn_subs n |}.
+Definition parked_at (s : hstate) (p : option (nat * hnode)) : hstate :=
+  match p with Some (cur, n) => set_heap s (store (h_heap s) cur (bumpn n)) | None => s end.
+Definition cands_of (s : hstate) (p : option (nat * hnode)) (b0 : nat) : list nat :=
+  match p with Some (cur, _) => after_id cur (bucket s b0) | None => bucket s b0 end.
+Definition rem_of (s : hstate) (p : option (nat * hnode)) (b0 : nat) : list nat :=
+  cands_of s p b0 ++ concat (skipn (S b0) (h_buckets s)).
+
+Lemma rem_incl : forall s p b0 x, In x (rem_of s p b0) -> In x (linked s).
+Proof.
+  unfold rem_of. intros. apply in_app_or in H. destruct H.
+  - apply linked_bucket. exists b0. destruct p as [[cur n]|]; simpl in H; auto. eapply after_id_incl; eauto.
+  - apply in_concat_skipn in H. destruct H as [b' [_ H]]. apply linked_bucket. exists b'. auto.
+Qed.
+
+Lemma node_eta : forall n, hn_ref n = 1 ->
+  {| hn_key := hn_key n; hn_val := hn_val n; hn_ref := 1; hn_removed := hn_removed n; hn_subs := hn_subs n |} = n.
+Proof. destruct n; simpl; intros; subst; auto. Qed.
+
+Lemma store_same : forall h id n, deref h id = Ok n -> store h id n = h.
+Proof.
+  intros. apply deref_ok in H. destruct H as [c [C1 [C2 C3]]]. apply list_ext. intros i. unfold store. rewrite nth_error_upd.
+  destruct (Nat.eqb id i) eqn:E; auto. apply Nat.eqb_eq in E. subst i.
+  assert (id < length h) by (apply nth_error_Some; congruence). apply Nat.ltb_lt in H. rewrite H, C1. destruct c; simpl in *; subst; auto.
+Qed.
+
+Lemma store_store : forall h id n n', store (store h id n) id n' = store h id n'.
+Proof.
+  intros. apply list_ext. intros i. unfold store. rewrite !nth_error_upd, upd_length. destruct (Nat.eqb id i); auto.
+Qed.
+
+Lemma store_comm : forall h a b n m, a <> b -> store (store h a n) b m = store (store h b m) a n.
+Proof.
+  intros. apply list_ext. intros i. unfold store. rewrite !nth_error_upd, !upd_length.
+  destruct (Nat.eqb a i) eqn:E1, (Nat.eqb b i) eqn:E2; auto. apply Nat.eqb_eq in E1, E2. subst. contradiction.
+Qed.
+
+Lemma node_deref_bumped : forall st cur n, deref (h_heap st) cur = Ok (bumpn n) -> hn_ref n = 1 ->
+  node_deref st cur = Ok (set_heap st (store (h_heap st) cur n), []).
+Proof.
+  intros. unfold node_deref. rewrite H. simpl. rewrite H0. simpl. destruct n; simpl in *; subst. reflexivity.
+Qed.
+
+Lemma set_heap_same : forall s, set_heap s (h_heap s) = s.
+Proof. destruct s; reflexivity. Qed.
+
+Lemma after_id_notin : forall l cur, NoDup l -> ~ In cur (after_id cur l).
+Proof.
+  induction l; simpl; intros; auto. inversion H; subst. destruct (Nat.eqb a cur) eqn:E.
+  - apply Nat.eqb_eq in E. subst. auto.
+  - apply IHl; auto.
+Qed.
+
+(* leaving the parked node restores the table *)
+Lemma unpark : forall s cur n, deref (h_heap s) cur = Ok n -> hn_ref n = 1 ->
+  node_deref (parked_at s (Some (cur, n))) cur = Ok (s, []).
+Proof.
+  intros. assert (cur < length (h_heap s)) by (eapply deref_lt; eauto).
+  rewrite (node_deref_bumped _ cur n); auto.
+  - simpl. unfold set_heap at 1. simpl. rewrite store_store, store_same by auto. f_equal. f_equal. destruct s; reflexivity.
+  - simpl. rewrite deref_store by auto. rewrite Nat.eqb_refl. auto.
+Qed.
+
+(* the tail of hashtable_iter_next once the next node nx has been found *)
+Lemma iter_tail : forall s p nx m b', Good s ->
+  (match p with Some (cur, n) => deref (h_heap s) cur = Ok n /\ hn_ref n = 1 /\ cur <> nx | None => True end) ->
+  deref (h_heap s) nx = Ok m ->
+  (do '(s1, fv) <- (do n <- deref (h_heap (parked_at s p)) nx;
+                    Ok (set_heap (parked_at s p) (store (h_heap (parked_at s p)) nx
+                          {| hn_key := hn_key n; hn_val := hn_val n; hn_ref := S (hn_ref n); hn_removed := hn_removed n; hn_subs := hn_subs n |}),
+                        hn_val n));
+   do '(s2, ns) <- match option_map fst p with Some cur => node_deref s1 cur | None => Ok (s1, []) end;
+   do n <- deref (h_heap s2) nx;
+   Ok (s2, {| hi_node := Some nx; hi_bucket := b' |}, Some (hn_key n, fv), ns)) =
+  Ok (parked_at s (Some (nx, m)), {| hi_node := Some nx; hi_bucket := b' |}, Some (hn_key m, hn_val m), []).
+Proof.
+  intros s p nx m b' G Hp Hm. assert (Hlt : nx < length (h_heap s)) by (eapply deref_lt; eauto).
+  destruct p as [[cur n]|]; simpl.
+  - destruct Hp as [Hc [Hr Hne]]. assert (Hlc : cur < length (h_heap s)) by (eapply deref_lt; eauto).
+    rewrite deref_store by auto. apply Nat.eqb_neq in Hne. rewrite Hne. rewrite Hm. simpl.
+    rewrite (node_deref_bumped _ cur n); auto.
+    2:{ simpl. rewrite deref_store by (rewrite store_length; auto). rewrite Nat.eqb_sym, Hne.
+        rewrite deref_store by auto. rewrite Nat.eqb_refl. auto. }
+    simpl. apply Nat.eqb_neq in Hne.
+    assert (E : store (store (store (h_heap s) cur (bumpn n)) nx (bumpn m)) cur n = store (h_heap s) nx (bumpn m)).
+    { rewrite (store_comm _ cur nx) by auto. rewrite store_store.
+      rewrite (store_comm _ nx cur) by auto. rewrite (store_same (h_heap s) cur n); auto. }
+    fold (bumpn m). rewrite E. rewrite deref_store by auto. rewrite Nat.eqb_refl. simpl. reflexivity.
+  - rewrite Hm. simpl. rewrite deref_store by auto. rewrite Nat.eqb_refl. simpl. reflexivity.
+Qed.
+
+(* one hashtable_iter_next from a position of a traversal over an otherwise untouched, well-formed table *)
+Lemma iter_next_core : forall s p b0, Good s ->
+  (match p with Some (cur, n) => deref (h_heap s) cur = Ok n /\ In cur (bucket s b0) | None => True end) ->
+  match rem_of s p b0 with
+  | [] => h_iter_next v_fixed (parked_at s p) {| hi_node := option_map fst p; hi_bucket := b0 |} =
+          Ok (s, {| hi_node := None; hi_bucket := nb s |}, None, [])
+  | nx :: R' => exists b' m, deref (h_heap s) nx = Ok m /\ In nx (bucket s b') /\ rem_of s (Some (nx, m)) b' = R' /\
+          h_iter_next v_fixed (parked_at s p) {| hi_node := option_map fst p; hi_bucket := b0 |} =
+          Ok (parked_at s (Some (nx, m)), {| hi_node := Some nx; hi_bucket := b' |}, Some (hn_key m, hn_val m), [])
+  end.
+Proof.
+  intros s p b0 G Hp.
+  set (sp := parked_at s p).
+  assert (Hb : h_buckets sp = h_buckets s) by (destruct p as [[c n]|]; reflexivity).
+  assert (Hnb : nb sp = nb s) by (unfold nb; rewrite Hb; auto).
+  assert (Hbk : forall b, bucket sp b = bucket s b) by (intros; unfold bucket; rewrite Hb; auto).
+  (* every linked node is still there and not removed in the parked heap *)
+  assert (OK : all_ok (h_heap sp) (linked s)).
+  { intros id Hid. destruct (good_linked s id G Hid) as [m [M1 [_ [M3 _]]]].
+    destruct p as [[cur n]|]; simpl; eauto. destruct Hp as [Hp1 _].
+    rewrite deref_store by (eapply deref_lt; eauto). destruct (Nat.eqb cur id) eqn:E; eauto.
+    apply Nat.eqb_eq in E. subst. rewrite Hp1 in M1. inversion M1; subst. exists (bumpn m). split; auto. }
+  assert (OKR : all_ok (h_heap sp) (rem_of s p b0)). { intros id Hid. apply OK. eapply rem_incl; eauto. }
+  unfold h_iter_next. fold sp. simpl hi_node. simpl hi_bucket. rewrite Hnb, Hb, Hbk.
+  (* first *)
+  assert (FIRST : (match option_map fst p with
+                   | Some cur => do _ <- deref (h_heap sp) cur; Ok (after_id cur (bucket s b0))
+                   | None => Ok (bucket s b0) end) = Ok (cands_of s p b0)).
+  { destruct p as [[cur n]|]; simpl; auto. destruct Hp as [Hp1 Hp2].
+    destruct (OK cur) as [m [M1 _]]. apply linked_bucket; eauto. unfold sp in M1. simpl in M1. rewrite M1. auto. }
+  rewrite FIRST. simpl.
+  destruct (Nat.ltb b0 (nb s)) eqn:LT.
+  2:{ (* beyond the table: nothing remains *)
+      apply Nat.ltb_ge in LT. unfold nb in LT.
+      assert (rem_of s p b0 = []).
+      { unfold rem_of, cands_of, bucket. rewrite nth_overflow by auto. rewrite skipn_all2 by lia.
+        destruct p as [[c n]|]; auto. }
+      rewrite H. simpl. destruct p as [[cur n]|]; simpl; auto.
+      destruct Hp as [_ Hp2]. unfold bucket in Hp2. rewrite nth_overflow in Hp2 by auto. contradiction. }
+  (* facts about the parked node *)
+  assert (HP : forall nx, In nx (rem_of s p b0) ->
+               match p with Some (cur, n) => deref (h_heap s) cur = Ok n /\ hn_ref n = 1 /\ cur <> nx | None => True end).
+  { intros nx Hnx. destruct p as [[cur n]|]; auto. destruct Hp as [Hp1 Hp2].
+    destruct (g_node _ G b0 cur Hp2) as [n' [N1 [N2 _]]]. rewrite Hp1 in N1. inversion N1; subst n'.
+    split; auto. split; auto. intro; subst nx. unfold rem_of, cands_of in Hnx. apply in_app_or in Hnx. destruct Hnx as [Hnx|Hnx].
+    - eapply after_id_notin; eauto. apply nodup_concat_nth. apply (g_nodup _ G).
+    - apply in_concat_skipn in Hnx. destruct Hnx as [b' [Hb1 Hb2]].
+      assert (b' = b0) by (eapply nodup_concat_unique; eauto; apply (g_nodup _ G)). lia. }
+  rewrite scan_buckets_good by exact OKR.
+  change (match h_buckets s with [] => [] | _ :: l => skipn b0 l end) with (skipn (S b0) (h_buckets s)).
+  generalize (first_ne_spec (skipn (S b0) (h_buckets s)) b0).
+  unfold rem_of in *. destruct (cands_of s p b0) as [|nx c'] eqn:CE.
+  - destruct (first_ne b0 (skipn (S b0) (h_buckets s))) as [[nx b']|].
+    + intros [j [t [J1 [J2 J3]]]]. rewrite J3 in *. cbn [app].
+      rewrite nth_skipn' in J2. replace (S b0 + j) with b' in J2 by lia.
+      assert (Hin : In nx (bucket s b')). { unfold bucket. rewrite J2. left; auto. }
+      destruct (g_node _ G b' nx Hin) as [m [M1 [M2 [M3 M4]]]].
+      exists b', m. split; auto. split; auto. split.
+      { assert (Q : forall B, after_id nx (nx :: t) ++ concat (skipn (S b') B) = t ++ concat (skipn (S j) (skipn (S b0) B))).
+        { intros. cbn [after_id]. rewrite Nat.eqb_refl. f_equal. rewrite skipn_skipn'. f_equal. f_equal. lia. }
+        unfold cands_of, bucket. rewrite J2. apply Q. }
+      simpl. apply (iter_tail s p nx m b' G); auto. apply HP. left; auto.
+    + intros E. rewrite E in *. cbn [app]. simpl.
+      destruct p as [[cur n]|]; simpl.
+      * destruct Hp as [Hp1 Hp2]. destruct (g_node _ G b0 cur Hp2) as [n' [N1 [N2 _]]]. rewrite Hp1 in N1. inversion N1; subst n'.
+        unfold sp. rewrite (unpark s cur n Hp1 N2). reflexivity.
+      * reflexivity.
+  - intros _. cbn [app].
+    assert (Hin : In nx (bucket s b0)).
+    { destruct p as [[cur n]|]; simpl in CE. eapply after_id_incl. rewrite CE. left; auto. rewrite CE. left; auto. }
+    destruct (g_node _ G b0 nx Hin) as [m [M1 [M2 [M3 M4]]]].
+    exists b0, m. split; auto. split; auto. split.
+    { f_equal. unfold cands_of. destruct p as [[cur n]|]; simpl in CE.
+      - eapply after_id_next; eauto. apply nodup_concat_nth. apply (g_nodup _ G).
+      - rewrite CE. simpl. rewrite Nat.eqb_refl. auto. }
+    simpl. apply (iter_tail s p nx m b0 G); auto. apply HP. left; auto.
+Qed.
 End HR.
